@@ -211,19 +211,78 @@ def lib_parts_model(line):
     return name, d, value
 
 
-def predict_parts(line):
-    """The defective reader (placeholder mechanism): parse the placeholder-encoded line, then decode the four
-    placeholders in name, parameter names/values and value.  Raises LineError where the reader rejects the line."""
-    st = ph_encode(line)
-    name, params, value = parse_line(st, missing_colon_ok=True)
-    name = ph_decode(name)
-    if not LIB_NAME_RE.match(name):
-        raise LineError("bad name after decoding")
+_UNSAFE = re.compile('[\x00-\x08\x0a-\x1f\x7f",:;]')
+_QUNSAFE = re.compile('[\x00-\x08\x0a-\x1f\x7f"]')
+
+
+def _qsplit(st, sep, maxsplit=-1):
+    """Quote-toggling splitter with the reader's leniencies (a lone quote opens a quoted region to the end)."""
+    if maxsplit == 0:
+        return [st]
+    out, cursor, inq, splits = [], 0, False, 0
+    for i, ch in enumerate(st):
+        if ch == '"':
+            inq = not inq
+        if not inq and ch == sep:
+            out.append(st[cursor:i])
+            cursor = i + 1
+            splits += 1
+        if i + 1 == len(st) or splits == maxsplit:
+            out.append(st[cursor:])
+            break
+    return out
+
+
+def _lenient_params(st):
     d = {}
-    for k, vals, _q in params:
-        vals = [ph_decode(v) for v in vals]
-        d[ph_decode(k).upper()] = vals[0] if len(vals) == 1 else vals
-    return name, d, ph_decode(value)
+    for param in _qsplit(st, ";"):
+        kv = _qsplit(param, "=", 1)
+        if len(kv) != 2:
+            raise LineError("parameter without '='")
+        key, val = kv
+        if not LIB_NAME_RE.match(key):
+            raise LineError("bad parameter name")
+        vals = []
+        for v in _qsplit(val, ","):
+            if v.startswith('"') and v.endswith('"'):
+                v = v.strip('"')
+                if _QUNSAFE.search(v):
+                    raise LineError("unsafe char in quoted value")
+            elif _UNSAFE.search(v):
+                raise LineError("unsafe char in value")
+            vals.append(v)
+        d[key] = val if not vals else (vals[0] if len(vals) == 1 else vals)
+    return d
+
+
+def predict_parts(line):
+    """The defective reader (placeholder mechanism), including its documented leniencies: placeholder-encode the whole
+    line, find the first ':'/';' and the first ':' outside (toggled) quotes, read the parameters leniently, then decode
+    the four placeholders in name, parameter names/values and value.  Raises LineError where the reader rejects."""
+    st = ph_encode(line)
+    name_split = value_split = None
+    inq = False
+    for i, ch in enumerate(st):
+        if not inq:
+            if ch in ":;" and not name_split:
+                name_split = i
+            if ch == ":" and not value_split:
+                value_split = i
+        if ch == '"':
+            inq = not inq
+    name = ph_decode(st[:name_split])
+    if not name or not LIB_NAME_RE.match(name):
+        raise LineError("bad name")
+    if not value_split:
+        value_split = len(st)
+    if not name_split or name_split + 1 == value_split:
+        raise LineError("invalid content line")
+    raw = _lenient_params(st[name_split + 1:value_split])
+    d = {}
+    for k, v in raw.items():
+        v = [ph_decode(x) for x in v] if isinstance(v, list) else ph_decode(v)
+        d[ph_decode(k).upper()] = v
+    return name, d, ph_decode(st[value_split + 1:])
 
 
 _CARET = re.compile(r"\^([n^'])")
